@@ -82,8 +82,9 @@ def rich_font(draw, max_base=5, kinds=("line", "curve"), with_layers=True, with_
             "openTypeOS2CodePageRanges": st.just([0, 1]),
             "openTypeOS2FamilyClass": st.just([1, 2]),
             "openTypeHeadFlags": st.just([0, 1, 3]),
-            "postscriptBlueValues": st.just([-10, 0, 500, 510]),
-            "postscriptStemSnapH": st.just([80, 90]),
+            "postscriptBlueValues": st.sampled_from([[-10, 0, 500, 510], [-10.5, 0, 500.25, 510]]),  # zone edges may be fractional
+            "postscriptStemSnapH": st.sampled_from([[80, 90], [80.5, 90]]),
+            "postscriptStemSnapV": st.just([70, 85.75]),
             "openTypeNameRecords": st.just([{"nameID": 19, "platformID": 3, "encodingID": 1, "languageID": 1033, "string": "Sample"}]),
             "openTypeGaspRangeRecords": st.just([{"rangeMaxPPEM": 8, "rangeGaspBehavior": [0, 1]}, {"rangeMaxPPEM": 65535, "rangeGaspBehavior": [1]}]),
             "styleMapStyleName": st.sampled_from(["regular", "bold", "italic"]),
@@ -232,6 +233,8 @@ def build_designspace(fam, module):
                 if a.name in s.location and s.location[a.name] == a.map_forward(a.default):
                     del s.location[a.name]
         s.name = "master%d" % i
+        if fam.get("explicit_default_layer") == i:
+            s.layerName = f.layers.defaultLayer.name   # a source that spells out the name of its font's default layer
         s.familyName = "Test"
         s.styleName = "M%d" % i
         ds.addSource(s)
@@ -260,6 +263,26 @@ def build_designspace(fam, module):
                     del s.location[a.name]
         s.name = "sparse"
         ds.addSource(s)
+        if sparse.get("listed") == "second":
+            # the sparse source is listed between the full masters, not after them
+            ds.sources.insert(1, ds.sources.pop())
+    for j, more in enumerate(fam.get("more_sparse", [])):
+        # further sparse layer masters (each at its own location, holding its own few glyphs)
+        sp = perturb(fam["base"], more["k"], fam.get("amp", 1.0), False)
+        s = SourceDescriptor()
+        L = fonts[0].newLayer("sparse%d" % (j + 2))
+        for g in sp["glyphs"]:
+            if g["name"] in more["names"]:
+                S._build_glyph(L, g)
+        s.font, s.layerName, s.name, s.location = fonts[0], "sparse%d" % (j + 2), "sparse%d" % (j + 2), dict(more["loc"])
+        if fam.get("partial_locations"):
+            for a in ds.axes:
+                if a.name in s.location and s.location[a.name] == a.map_forward(a.default):
+                    del s.location[a.name]
+        ds.addSource(s)
+    if fam.get("listed_reversed"):
+        # the sources are listed in the opposite order (default source last); `fonts` keeps the order of fam["masters"]
+        ds.sources.reverse()
     for r in fam.get("rules", []):
         rd = RuleDescriptor()
         rd.name = r["name"]
@@ -279,6 +302,18 @@ def master_specs(fam):
         if drop:
             sp["kerning"] = [p for j, p in enumerate(sp["kerning"]) if j not in drop]
         for tw in fam.get("tweaks", []):
+            if tw["kind"] == "unit-step":
+                # values that differ by exactly one unit between the default and the other masters: a kerning entry and an anchor of one glyph
+                for j in tw.get("kerning", []):
+                    if j < len(sp["kerning"]) and j < len(fam["base"]["kerning"]) and sp["kerning"][j][:2] == fam["base"]["kerning"][j][:2]:
+                        sp["kerning"][j][2] = fam["base"]["kerning"][j][2] + (1 if i >= 1 else 0)
+                for gname in tw.get("anchors", []):
+                    g0 = next((g for g in fam["base"]["glyphs"] if g["name"] == gname), None)
+                    g1 = next((g for g in sp["glyphs"] if g["name"] == gname), None)
+                    if g0 and g1 and g0.get("anchors") and g1.get("anchors"):
+                        g1["anchors"][0]["x"] = g0["anchors"][0]["x"] + (1 if i >= 1 else 0)
+                        g1["anchors"][0]["y"] = g0["anchors"][0]["y"]
+                continue
             if tw["kind"] == "const-kerning":
                 # these kerning entries have the same value in every master (no per-master jitter)
                 for j in tw["indices"]:
